@@ -1,7 +1,7 @@
-\* thorough: one token, 10 values, 1 iterator; graph exported
+\* thorough: one token, 9 values, 1 iterator; graph exported
 SPECIFICATION Spec
 CONSTANTS
-  K = 10
+  K = 9
   T = 1
   I = 1
   MaxToks = 1
